@@ -158,6 +158,14 @@ impl StateMachineTrait for Metadata {
                 sealed_segment_entry_count,
             } => {
                 if let Some(topic_state) = state.topics.get_mut(&name) {
+                    // Reject a count that would overflow the cumulative offset before touching
+                    // the topic, so the state stays consistent (and the lock unpoisoned)
+                    let Some(new_offset) = topic_state
+                        .last_sealed_entry_offset
+                        .checked_add(sealed_segment_entry_count)
+                    else {
+                        return Err("sealed entry offset overflow".into());
+                    };
                     let sealed_seg = topic_state.current_segment;
                     topic_state
                         .sealed_segments
@@ -165,7 +173,7 @@ impl StateMachineTrait for Metadata {
                     topic_state
                         .segment_leaders
                         .insert(sealed_seg, topic_state.leader_node);
-                    topic_state.last_sealed_entry_offset += sealed_segment_entry_count;
+                    topic_state.last_sealed_entry_offset = new_offset;
                     topic_state.current_segment += 1;
                     topic_state.leader_node = new_leader;
                     topic_state
